@@ -242,6 +242,69 @@ func (w *world) prologue(kind int) (fillers []prefix) {
 	return fillers
 }
 
+// longHistory: a filter that lives long. Several hundred ranges of all prefix
+// lengths go in (well past the list-to-map switch), most of them come out
+// again - with more than a thousand Remove calls in some runs - a few of the
+// survivors are removed, and more than a hundred fresh ranges follow. Whatever
+// the filter does every so many operations, or when it has become small again,
+// happens here. The model is compared over every touched range after each phase.
+func (w *world) longHistory() []prefix {
+	ch := simrt.Choose
+	simrt.Probe("long_history")
+	wide := func(k int) prefix {
+		ones := 8 + k%25
+		return prefix{u32(uint32(11+k%180), uint32(k/3%256), uint32(k*7%256), uint32(k*13%256)), ones}.canon()
+	}
+	var all []prefix
+	sweep := func(when string) {
+		for _, a := range boundaries(all) {
+			w.probe(a, false, when)
+		}
+	}
+	nA := 270 + ch("long.adds", 120)
+	for k := 0; k < nA; k++ {
+		p := wide(k)
+		w.add(p)
+		all = append(all, p)
+	}
+	sweep("after the first wave of adds")
+	// drain to a small remainder, some ranges removed more than once
+	keep := ch("long.keep", 130)
+	order := make([]int, nA)
+	for i := range order {
+		order[i] = i
+	}
+	for i := len(order) - 1; i > 0; i-- {
+		j := ch("long.shuffle", i+1)
+		order[i], order[j] = order[j], order[i]
+	}
+	removes := 0
+	for _, k := range order[:nA-keep] {
+		w.remove(all[k])
+		removes++
+	}
+	if ch("long.many_removes", 2) == 1 {
+		for removes < 1030 {
+			w.remove(all[order[ch("long.again", nA-keep)]]) // already gone: changes nothing
+			removes++
+		}
+		simrt.Probe("over_a_thousand_removes")
+	}
+	sweep("after draining")
+	for i := 0; i < 3 && keep > 0; i++ {
+		w.remove(all[order[nA-keep+ch("long.survivor", keep)]])
+	}
+	sweep("after removing survivors")
+	nD := 130 + ch("long.more", 60)
+	for k := 0; k < nD; k++ {
+		p := wide(1000 + k)
+		w.add(p)
+		all = append(all, p)
+	}
+	sweep("after the second wave of adds")
+	return all[len(all)-8:]
+}
+
 func (w *world) sequential() {
 	ch := simrt.Choose
 	w.f = netutil.NewIPv4Filter()
@@ -252,6 +315,10 @@ func (w *world) sequential() {
 	simrt.ArmPreempt()
 	adds := len(fillers)
 	var touched []prefix
+	if ch("cfg.long", 40) == 39 {
+		touched = w.longHistory()
+		adds += 300
+	}
 	for i := 0; i < nOps; i++ {
 		switch k := ch("op", 10); {
 		case k < 4:
